@@ -215,6 +215,100 @@ func vRefValueEnd(data []byte, p int, depth int) (int, bool) {
 	return 0, false
 }
 
+// vRefValueEndDeep: the same grammar without any nesting limit (used to recognise inputs that
+// are only rejected for their depth, which some properties leave open). index just after the JSON value starting at p (no leading
+// whitespace); depth = number of containers already open.
+func vRefValueEndDeep(data []byte, p int, depth int) (int, bool) {
+	if p >= len(data) {
+		return 0, false
+	}
+	c := data[p]
+	switch {
+	case c == '"':
+		return vRefStringEnd(data, p)
+	case c == '-' || vIsDigit(c):
+		return vRefNumberEnd(data, p)
+	case c == 't':
+		if vRefLiteral(data, p, "true") {
+			return p + 4, true
+		}
+		return 0, false
+	case c == 'f':
+		if vRefLiteral(data, p, "false") {
+			return p + 5, true
+		}
+		return 0, false
+	case c == 'n':
+		if vRefLiteral(data, p, "null") {
+			return p + 4, true
+		}
+		return 0, false
+	case c == '[':
+		p = vSkipWS(data, p+1)
+		if p < len(data) && data[p] == ']' {
+			return p + 1, true
+		}
+		for {
+			var ok bool
+			p, ok = vRefValueEndDeep(data, p, depth+1)
+			if !ok {
+				return 0, false
+			}
+			p = vSkipWS(data, p)
+			if p >= len(data) {
+				return 0, false
+			}
+			if data[p] == ']' {
+				return p + 1, true
+			}
+			if data[p] != ',' {
+				return 0, false
+			}
+			p = vSkipWS(data, p+1)
+		}
+	case c == '{':
+		p = vSkipWS(data, p+1)
+		if p < len(data) && data[p] == '}' {
+			return p + 1, true
+		}
+		for {
+			if p >= len(data) || data[p] != '"' {
+				return 0, false
+			}
+			var ok bool
+			p, ok = vRefStringEnd(data, p)
+			if !ok {
+				return 0, false
+			}
+			p = vSkipWS(data, p)
+			if p >= len(data) || data[p] != ':' {
+				return 0, false
+			}
+			p = vSkipWS(data, p+1)
+			p, ok = vRefValueEndDeep(data, p, depth+1)
+			if !ok {
+				return 0, false
+			}
+			p = vSkipWS(data, p)
+			if p >= len(data) {
+				return 0, false
+			}
+			if data[p] == '}' {
+				return p + 1, true
+			}
+			if data[p] != ',' {
+				return 0, false
+			}
+			p = vSkipWS(data, p+1)
+		}
+	}
+	return 0, false
+}
+
+func vRefSkipDeep(data []byte) (int, bool) {
+	return vRefValueEndDeep(data, vSkipWS(data, 0), 0)
+}
+
 // vRefSkip: optional whitespace then one value; end offset of that value.
 func vRefSkip(data []byte) (int, bool) {
 	return vRefValueEnd(data, vSkipWS(data, 0), 0)
